@@ -404,6 +404,16 @@ void c07_run(const Case &c, Result &r) {
         }
       }
     }
+    // a valid value edit (drops the stored solution, keeps whatever factorization the object believes it has)
+    // followed by a direct solve must work on the object as the rejected call left it -- before anything
+    // structural is added that would rebuild the internal state
+    if (r.verdict == PASS) {
+      int st = 0;
+      Q nv(5, 3);
+      mpq_QSset_param(p, QS_PARAM_SIMPLEX_MAX_ITERATIONS, 500);
+      if (mpq_QSget_colcount(p) > 0) mpq_QSchange_objcoef(p, 0, nv.get_mpq_t());
+      if (lpos % 2) mpq_QSopt_dual(p, &st); else mpq_QSopt_primal(p, &st);
+    }
     if (r.verdict == PASS) {
       Q zero(0), one1(1);
       int rc1 = mpq_QSnew_col(p, zero.get_mpq_t(), zero.get_mpq_t(), one1.get_mpq_t(), "c07probecol");
